@@ -7,6 +7,7 @@ from __future__ import annotations
 import json
 import os
 import re
+import sys
 import shutil
 import subprocess
 import tempfile
@@ -15,6 +16,9 @@ import time
 SPEC_DIR = os.path.join(os.path.dirname(os.path.dirname(os.path.abspath(__file__))), 'spec')
 JAR = '/opt/veriftools/tla/tla2tools.jar'
 COMMUNITY = '/opt/veriftools/tla/CommunityModules-deps.jar'
+
+
+_RE_PROGRESS = re.compile(r'([\d,]+) states generated.*?([\d,]+) states left on queue')
 
 
 class TLCError(Exception):
@@ -51,7 +55,22 @@ def _tlc_cmd():
     return shutil.which('tlc') or 'tlc'
 
 
-def run(module, cfg=None, workers=16, simulate=None, depth=None, seed=None, coverage=False,
+class TLCStuck(TLCError):
+    pass
+
+
+def run(module, cfg=None, workers=16, **kw):
+    """_run_once, restarted (at most twice, the second time with one worker) when TLC stops making progress"""
+    for attempt in range(3):
+        try:
+            return _run_once(module, cfg, workers if attempt < 2 else 1, **kw)
+        except TLCStuck as e:
+            sys.stderr.write('tlc.run: %s -- restarting (attempt %d)\n' % (str(e)[:200], attempt + 2))
+            if attempt == 2:
+                raise
+
+
+def _run_once(module, cfg=None, workers=16, simulate=None, depth=None, seed=None, coverage=False,
         env=None, timeout=3600, extra=(), dfs=False, heap=None, cwd=None, expect_violation=False,
         keep_stdout=True, line_cb=None):
     """Run TLC on spec/<module>.tla with spec/<cfg>.cfg.
@@ -93,6 +112,7 @@ def run(module, cfg=None, workers=16, simulate=None, depth=None, seed=None, cove
     proc = subprocess.Popen(cmd, cwd=cwd, env=e, stdout=subprocess.PIPE, stderr=subprocess.STDOUT,
                             text=True, errors='replace', bufsize=1 << 20)
     other = []
+    last_progress = [None, 0]
     try:
         deadline = t0 + timeout
         for line in proc.stdout:
@@ -112,6 +132,20 @@ def run(module, cfg=None, workers=16, simulate=None, depth=None, seed=None, cove
                 if line.startswith('<<'):
                     res.tuples.append(line.rstrip('\n'))
                 other.append(line)
+                if line.startswith('Progress('):
+                    mp_ = _RE_PROGRESS.search(line)
+                    if mp_:
+                        cur = (mp_.group(1), mp_.group(2))
+                        if cur == last_progress[0]:
+                            last_progress[1] += 1
+                        else:
+                            last_progress[0], last_progress[1] = cur, 0
+                        if last_progress[1] >= 2:
+                            # three progress reports (one per minute) with the same number of generated states and a non-empty queue:
+                            # the workers are spinning (seen with several workers sharing values: TLC normalises values lazily, in place)
+                            proc.kill()
+                            raise TLCStuck('TLC made no progress for %d reports (%s states generated, %s on queue): %s' % (
+                                last_progress[1] + 1, cur[0], cur[1], ' '.join(cmd)))
             if time.time() > deadline:
                 proc.kill()
                 raise TLCError('TLC timeout after %ss: %s' % (timeout, ' '.join(cmd)))
